@@ -188,13 +188,13 @@ def run_case(case, ctx):
 		shutil.rmtree(d, ignore_errors=True)
 
 
-SPECS = [(5, 'AT'), (6, 'AT'), (7, 'AT'), (5, 'AC'), (6, 'AC'), (6, 'ATG'), (5, 'TA'), (7, 'ATG'), (8, 'CC')]
+SPECS = [(5, 'AT'), (6, 'AT'), (7, 'AT'), (5, 'AC'), (6, 'AC'), (6, 'ATG'), (5, 'TA'), (7, 'ATG'), (8, 'CC'), (17, 'AT'), (20, 'AC')]
 
 
 @st.composite
 def gen_case(draw, tier):
 	w = draw(Wd.world(max_refs=4, min_refs=2, max_queries=3, nasty_names=False))
-	w['k'], w['prefix'] = draw(st.sampled_from(SPECS[:6]))
+	w['k'], w['prefix'] = draw(st.sampled_from(SPECS[:6] + SPECS[9:]))
 	D = (w['k'], w['prefix'])
 
 	def other(base):
@@ -203,9 +203,10 @@ def gen_case(draw, tier):
 			return None if base == D else list(base)
 		k, p = base
 		if kind in ('k', 'both'):
-			k = draw(st.sampled_from([x for x in (5, 6, 7, 8) if x != base[0]]))
+			k = draw(st.sampled_from([x for x in (5, 6, 7, 8, 17, 18) if x != base[0]]))
 		if kind in ('prefix', 'both'):
-			p = draw(st.sampled_from([x for x in ('AT', 'AC', 'ATG', 'TA', 'GAT') if x != base[1]]))
+			rc_of = {'AC': 'GT', 'GT': 'AC', 'ATG': 'CAT', 'CAT': 'ATG', 'GAT': 'ATC', 'ATC': 'GAT', 'GA': 'TC', 'TC': 'GA', 'CC': 'GG'}
+			p = draw(st.sampled_from([x for x in ('AT', 'AC', 'ATG', 'TA', 'GAT', 'GT', 'CAT') if x != base[1]] + ([rc_of[base[1]]] * 3 if base[1] in rc_of else [])))
 		return [k, p]
 	specQ = other(D)
 	specR = other(tuple(specQ) if specQ else D) if draw(st.booleans()) else other(D)
